@@ -13,6 +13,8 @@ pub const ALPHABET: &[char] = &[
     // (NBSP, EM SPACE, IDEOGRAPHIC SPACE, NEL), Unicode digits / numerics (ARABIC-INDIC THREE, FULLWIDTH ONE,
     // SUPERSCRIPT TWO), fullwidth 'e' and minus
     '\u{a0}', '\u{2003}', '\u{3000}', '\u{85}', '\u{0663}', '\u{ff11}', '\u{b2}', '\u{ff45}', '\u{ff0d}',
+    // the edges of 128- and 256-entry lookup tables
+    '\u{80}', '\u{ff}', '\u{100}',
 ];
 
 pub const K_NONE: u8 = 0;
